@@ -142,9 +142,18 @@ package tree
 //@   ensures [elements_distinct] forall k int, j int :: {result[k], result[j]} 0 <= k && k < j && j < len(result) ==> result[k] != result[j]
 //@   ensures [fresh_storage] fresh_arr(result)
 
+// Tree.Newick (property C01): the root is written first (recursively), then each of its comments between its own pair
+// of brackets, then the terminating semicolon; the text returned is the content of that buffer
 //@ func (*tree.Tree).Newick
-//@   requires t != nil
+//@   flag countcalls
+//@   requires t != nil && t.root != nil && allocated(t.root) && INV12()
+//@   allocates bytes.Buffer, iface, []any
 //@   assigns nothing
+//@   call (*tree.Node).Newick [the_whole_tree_is_written_from_the_root_without_parent] a0 == t.root && a1 == nil && ghost(ncalls_WriteString) == old(ghost(ncalls_WriteString))
+//@   call (*bytes.Buffer).WriteString@L1 [each_root_comment_between_its_own_brackets] a1 == "[" || a1 == "]" || a1 == c
+//@   call (*bytes.Buffer).WriteString@L0 [the_text_ends_with_a_semicolon] a1 == ";"
+//@   loop 1
+//@     step [three_pieces_per_root_comment] ghost(ncalls_WriteString) == atHead(ghost(ncalls_WriteString)) + 3 && c == t.root.comment[rangeindex + 1]
 
 //@ func (*tree.Tree).Edges
 //@   requires t != nil
@@ -377,11 +386,14 @@ package tree
 // recursively with this node as parent into the same buffer
 //@ func (*tree.Node).Newick
 //@   flag noframe
+//@   flag countcalls
 //@   requires n != nil && allocated(n) && newick != nil && INV12()
 //@   call (*bytes.Buffer).WriteString@L2 [a_node_comment_is_written_between_brackets_from_the_child_s_own_list] a0 == newick && (a1 == "[" || a1 == "]" || (exists k int :: 0 <= k && k < len(child.comment) && a1 == child.comment[k]))
 //@   call (*bytes.Buffer).WriteString@L3 [a_branch_comment_is_written_between_brackets_from_the_branch_s_own_list] a0 == newick && (a1 == "[" || a1 == "]" || (exists k int :: 0 <= k && k < len(n.br[i].comment) && a1 == n.br[i].comment[k]))
 //@   call strconv.FormatFloat [plain_decimal_shortest_representation_of_a_value_stored_on_the_branch] a1 == 102 && a2 == -1 && a3 == 64 && (a0 == n.br[i].support || a0 == n.br[i].pvalue || a0 == n.br[i].length)
 //@   call (*tree.Node).Newick [children_are_written_with_this_node_as_parent_into_the_same_buffer] a0 == child && a1 == n && a2 == newick && child != parent
+//@   loop 1
+//@     step [support_only_for_an_unnamed_child_pvalue_only_with_support_length_when_present] child != parent ==> ghost(ncalls_FormatFloat) == atHead(ghost(ncalls_FormatFloat)) + ((n.br[i].support != -1.0 && child.name == "") ? (n.br[i].pvalue != -1.0 ? 2 : 1) : 0) + (n.br[i].length != -1.0 ? 1 : 0)
 
 // Hash sums of the two sides of every branch (property C04).  tax_hash is FNV-1a of the name: a function of the
 // string (trusted).  Down pass: the right-hand sums of a branch are reset, a tip contributes its name hash and counts
@@ -542,6 +554,7 @@ package tree
 //@   call (*tree.Tree).RemoveEdges [only_branches_with_present_support_below_threshold] forall k int :: 0 <= k && k < len(a3) ==> a3[k] != nil && lowsupport(a3[k], support)
 //@   call (*tree.Tree).RemoveEdges [every_such_branch_is_selected] forall j int :: 0 <= j && j < len(edges) && lowsupport(edges[j], support) ==> (exists k int :: 0 <= k && k < len(a3) && a3[k] == edges[j])
 //@   call (*tree.Tree).RemoveEdges [tips_never_requested_for_removal] a2 == false
+//@   call (*tree.Tree).RemoveEdges [root_option_is_passed_on] a1 == removeRoot
 //@   loop 1
 //@     invariant [separate_storage] arr(lowsupportbranches) != arr(edges)
 //@     invariant [tree_untouched] t != nil && INV1() && INV2() && OWN() && LIVEBR()
@@ -555,6 +568,7 @@ package tree
 //@   requires t != nil && INV1() && INV2() && OWN() && LIVEBR()
 //@   call (*tree.Tree).RemoveEdges [only_branches_not_longer_than_threshold] forall k int :: 0 <= k && k < len(a3) ==> a3[k] != nil && shortbranch(a3[k], length)
 //@   call (*tree.Tree).RemoveEdges [every_such_branch_is_selected] forall j int :: 0 <= j && j < len(edges) && shortbranch(edges[j], length) ==> (exists k int :: 0 <= k && k < len(a3) && a3[k] == edges[j])
+//@   call (*tree.Tree).RemoveEdges [root_and_tip_options_are_passed_on_in_that_order] a1 == removeRoot && a2 == removeTips
 //@   loop 1
 //@     invariant [separate_storage] arr(shortbranches) != arr(edges)
 //@     invariant [tree_untouched] t != nil && INV1() && INV2() && OWN() && LIVEBR()
@@ -568,6 +582,7 @@ package tree
 //@   requires t != nil && INV1() && INV2() && OWN() && LIVEBR()
 //@   call (*tree.Tree).RemoveEdges [only_branches_within_the_depth_interval] forall k int :: 0 <= k && k < len(a3) ==> a3[k] != nil && indepth(a3[k], mindepthThreshold, maxdepthThreshold)
 //@   call (*tree.Tree).RemoveEdges [every_such_branch_is_selected] forall j int :: 0 <= j && j < len(edges) && indepth(edges[j], mindepthThreshold, maxdepthThreshold) ==> (exists k int :: 0 <= k && k < len(a3) && a3[k] == edges[j])
+//@   call (*tree.Tree).RemoveEdges [root_and_tip_options_are_passed_on_in_that_order] a1 == removeRoot && a2 == removeTips
 //@   loop 1
 //@     invariant [separate_storage] arr(depthbranches) != arr(edges)
 //@     invariant [tree_untouched] t != nil && INV1() && INV2() && OWN() && LIVEBR()
@@ -1352,6 +1367,7 @@ package tree
 //@ func (*tree.Tree).AddBipartition
 //@   flag noframe
 //@   flag lightcalls
+//@   flag countcalls
 //@   requires t != nil && n != nil
 //@   ensures [a_group_of_one_or_of_all_but_one_branch_is_refused] len(edges) <= 1 || len(edges) >= old(len(n.br)) - 1 ==> result0 == nil && result1 != nil
 //@   call (*tree.Node).delNeighbor [the_node_and_the_far_end_forget_each_other] (a0 == other && a1 == n) || (a0 == n && a1 == other)
@@ -1364,6 +1380,7 @@ package tree
 //@   call (*tree.Edge).SetSupport@L0 [the_new_branch_gets_the_given_support] a0 == e && a1 == support
 //@   loop 1
 //@     invariant [incoming_moved_branches_counted] nbin >= 0 && nbout >= 0 && n2 != nil
+//@     step [every_moved_branch_gets_its_three_values_back_exactly_once] ghost(ncalls_SetLength) == atHead(ghost(ncalls_SetLength)) + 1 && ghost(ncalls_SetSupport) == atHead(ghost(ncalls_SetSupport)) + 1 && ghost(ncalls_SetPValue) == atHead(ghost(ncalls_SetPValue)) + 1 && ghost(ncalls_ConnectNodes) == atHead(ghost(ncalls_ConnectNodes)) + 1
 //@     step [one_more_in_the_direction_of_the_moved_branch] next(nbin) + next(nbout) == nbin + nbout + 1 && (next(nbin) == nbin + 1) == (e.left != n)
 
 // ---------------------------------------------------------------------------
@@ -1381,6 +1398,8 @@ package tree
 //@   ensures [a_tree_or_an_error] result1 == nil ==> result0 != nil
 //@   call (*tree.Tree).ReinitIndexes [every_input_tree_is_unrooted_before_its_branches_are_counted] a0 == startree || (a0 == curtree.Tree && ghost(ncalls_UnRoot) - old(ghost(ncalls_UnRoot)) == ghost(ncalls_ReinitIndexes) - old(ghost(ncalls_ReinitIndexes)) + 1)
 //@   call (*tree.Tree).UnRoot [the_tree_being_read_is_unrooted] a0 == curtree.Tree
+//@   call (*tree.Tree).ExistsTip [every_name_of_a_later_tree_is_looked_up_in_the_tips_of_the_first] a0 == startree && a1 == name
+//@   call tree.StarTreeFromTree [the_star_is_built_from_the_first_tree] a0 == curtree.Tree && startree == nil
 //@   call (*tree.EdgeIndex).AddEdgeCount [every_branch_of_every_tree_is_counted_once] a1 == e
 //@   call (*tree.EdgeIndex).Edges [splits_kept_are_those_counted_more_than_cutoff_times_n_or_in_every_tree] a1 == toint(cutoff * real(nbtrees)) && a2 == nbtrees
 //@   call (*tree.Tree).AddBipartition [kept_split_carries_mean_length_and_frequency] a3 == real(bs.val.Len) / real(bs.val.Count) && a4 == real(bs.val.Count) / real(nbtrees)
